@@ -64,6 +64,13 @@ def _cases(tier):
     for a, b in itertools.combinations(POOL, 2):
         yield {"mode": "field", "keys": [a, b]}
         yield {"mode": "class", "keys": [a, b]}
+    # a merged model is named after both keys (K1_K2); a third key spells the same words in one piece
+    for k1, k2 in (("north", "point"), ("a", "b"), ("user", "info"), ("Order", "Line"), ("first", "name"), ("x1", "y2")):
+        for joined in (f"{k1}_{k2}", f"{k1}{k2.capitalize()}", f"{k1}-{k2}"):
+            yield {"mode": "merged_class", "keys": [k1, k2, joined]}
+    # the root merges with its own list items (it keeps its given name and is registered again, last); another key generates that name
+    for k in ("root", "roots", "Root", "ROOT"):
+        yield {"mode": "recursive_root", "keys": [k]}
     # optional renamed fields (key absent in a second sample): alias / metadata must survive the default
     seen = set()
     for k in itertools.chain(POOL, A.word_forms(A.KEY_WORDS, ["-", " "]), A.key_strings(SYMS, 2)):
@@ -85,6 +92,11 @@ def _samples(case):
         o = {k: i + 1 for i, k in enumerate(case["keys"])}
         o["zz"] = 0
         return [o] if case["mode"] == "field" else [o, {"zz": 1}]
+    if case["mode"] == "recursive_root":
+        return [{"uid": 1, "name": "n", "children": [{"uid": 2, "name": "m", "children": []}], case["keys"][0]: {"other": 1, "thing": "x"}}]
+    if case["mode"] == "merged_class":
+        k1, k2, joined = case["keys"]
+        return [{k1: {"p": 1, "q": 2, "r": 3}, k2: {"p": 4, "q": 5, "r": 6}, joined: {"zz9": 1, "yy9": "x"}}]
     if case["mode"] == "nested_field":     # the renamed key lives in a non-root class (nested layout goes through indentation)
         return [{"inner": {case["keys"][0]: 1, "zz": 0}, "top": 1}]
     o = {}
@@ -123,7 +135,8 @@ def _judge(prog, b, fw, kw, case, samples):
         out.append(("class_names_not_distinct", str(names)))
     if len(names) != len(b.reg.models_map):
         out.append(("class_count_differs_from_model_count", f"{names} vs {len(b.reg.models_map)} models"))
-    if out:
+    if out or case["mode"] == "recursive_root":
+        # (recursive_root: the root class is legitimately renamed Root_<index>; only the class-name clauses apply)
         return out
     root = prog.mod.__dict__.get("Root")
     if not isinstance(root, type):
